@@ -20,7 +20,7 @@ RULE = ("seeded scalar (vectorize=False) models over the documented function set
         "must equal dense; non-trivial = at least 2 state variables and one off-diagonal non-zero entry; distinct = distinct "
         "(spec, mode) hash")
 DECIDING = ['entries_compared', 'offdiag_nonzero_entries', 'hist_entries_compared', 'sparse_checks', 'ode_models', 'dde_models',
-            'entries_vs_reference', 'whole_number_delays']
+            'entries_vs_reference', 'whole_number_delays', 'auto_jacobian_exports']
 ASSUMPTIONS = ['probe points whose finite differences with step h and h/2 disagree (kinks of absv/maxi) are discarded',
                'history Jacobians are matched to delays as a set (the API does not name them)']
 CASE_TIMEOUT = 240
@@ -40,12 +40,18 @@ def plan(tier, seed):
         fam = 'probe:' + feat if feat in opened else 'main'
         cases += [{'family': fam, 'cseed': rnd.randrange(1 << 30), 'want': feat,
                    'mode': 'dde' if feat == 'delay_on_nonfirst_state' else 'ode'} for _ in range(k)]
+    # the auto-07p DFDU / DFDP blocks obey the same identity (w.r.t. state and parameters): exports with up to 26 parameters,
+    # compiled with gfortran -fcheck=all and compared with central differences of the exported FUNC (machinery of C18)
+    cases += [{'family': 'auto_jacobian', 'cseed': rnd.randrange(1 << 30), 'mode': 'auto'} for _ in range(8 if tier == 'quick' else 120)]
     return cases
 
 
 def warmup(ctx):
     import pyrates  # noqa
     import scipy.sparse  # noqa
+    import mpmath
+    mpmath.mp.dps = 40
+    ctx['mp'] = mpmath
     ctx['open_risks'] = open_risks(PID)
     ctx['excluded'] = open_risks('C01') | open_risks('C10')
     import math
@@ -152,6 +158,14 @@ def fd_jac(fun, y, h=1e-4):
 
 
 def run_case(case, ctx):
+    if case.get('family') == 'auto_jacobian':
+        from vp.props import c18
+        res = c18.run_case(case, ctx)
+        m = res.setdefault('mech', {})
+        m['auto_jacobian_exports'] = 1
+        m['entries_compared'] = m.get('entries_compared', 0) + m.get('dfdu_entries', 0) + m.get('dfdp_entries', 0)
+        res['features'] = list(res.get('features', [])) + ['auto_jacobian']
+        return res
     spec, info, risk, fs = make_case(case, ctx)
     mode = case['mode']
     rnd = random.Random(case['cseed'] + 9)
